@@ -416,9 +416,16 @@ func (g *FnGen) call(instr ssa.Instruction, c *ssa.CallCommon, st *State, reach 
 	}
 	// free variables of a directly called closure
 	var fvs map[string]SVal
+	g.callCaptured = nil
 	if mc, ok := c.Value.(*ssa.MakeClosure); ok {
 		fvs = map[string]SVal{}
 		fn := mc.Fn.(*ssa.Function)
+		g.callCaptured = map[string]types.Type{}
+		for _, fv := range fn.FreeVars {
+			if pt, ok := fv.Type().(*types.Pointer); ok {
+				g.callCaptured[fv.Name()] = pt.Elem()
+			}
+		}
 		for i, b := range mc.Bindings {
 			var t Term
 			if p, ok := g.ptrs[b]; ok && p.kind == "cell" {
@@ -502,7 +509,7 @@ func (g *FnGen) applyContract(ci *calleeInfo, args []Term, fvs map[string]SVal, 
 			if cl.Kind != "requires" {
 				continue
 			}
-			env := &Env{g: g, vars: vars, st: st, old: st, pkg: ci.pkg}
+			env := &Env{g: g, vars: vars, st: st, old: st, pkg: ci.pkg, captured: g.callCaptured}
 			goal := g.evalBool(env, cl)
 			lab := fmt.Sprintf("%s#%d", ci.short, callOrd)
 			if cl.Label != "" {
@@ -687,7 +694,7 @@ func (g *FnGen) applyContract(ci *calleeInfo, args []Term, fvs map[string]SVal, 
 		if con != nil {
 			for _, cl := range con.Clauses {
 				if cl.Kind == "xensures" {
-					env := &Env{g: g, vars: vars, st: xs, old: before, pkg: ci.pkg}
+					env := &Env{g: g, vars: vars, st: xs, old: before, pkg: ci.pkg, captured: g.callCaptured}
 					g.assume(fmt.Sprintf("(and %s %s)", reach, pan.S), g.evalBool(env, cl))
 				}
 			}
@@ -718,7 +725,7 @@ func (g *FnGen) applyContract(ci *calleeInfo, args []Term, fvs map[string]SVal, 
 			if cl.Kind != "ensures" || strings.Contains(cl.Src, "callresult(") || strings.Contains(cl.Src, "called(") {
 				continue // clauses about the callee's own call sites are not exported to callers
 			}
-			env := &Env{g: g, vars: vars, st: st, old: before, pkg: ci.pkg, results: rvals, rnames: ci.rnames}
+			env := &Env{g: g, vars: vars, st: st, old: before, pkg: ci.pkg, results: rvals, rnames: ci.rnames, captured: g.callCaptured}
 			g.assume(reach, g.evalBool(env, cl))
 		}
 	}
